@@ -38,7 +38,7 @@ ASSUMPTIONS = [
     "<=2); several lost options are reported one by one; raising routes are "
     "reduced to the 1-minimal failing option set instead",
 ]
-BUDGET_S = {"quick": 80, "thorough": 840}
+BUDGET_S = {"quick": 120, "thorough": 840}
 ROUTES = ["from_config", "get_quantizer_dict", "get_quantizer_legacy_dict",
           "keras_deserialize"]
 # options without any effect on outputs (variable plumbing only); symmetric
@@ -47,6 +47,7 @@ ROUTES = ["from_config", "get_quantizer_dict", "get_quantizer_legacy_dict",
 UNOBSERVABLE = {"var_name", "use_variables"}
 _REQ = (["lattice", "hyp", "registry", "call_first", "config_first",
          "orig_ok", "phase1_differs", "qnoise_zero", "qnoise_via_update",
+         "qnoise_via_update_variable", "list1_option",
          "pts_keepdims"] + O.CLASSES +
         ["opt:%s.%s" % (c, p) for c in O.CLASSES for p, _ in O.SPEC[c]] +
         ["observable:%s.%s" % (c, p) for c in O.CLASSES for p, _ in O.SPEC[c]
@@ -227,7 +228,7 @@ def _analyse(ctx, cls, kw, call_first, probes, seed, route, qn_update=False):
     out.append((route, dict(sg_order(cls, route, sig)), detail,
                 dict({"cls": cls, "kw": m, "call_first": call_first,
                       "probes": probes, "seed": seed},
-                     **({"qn_update": True} if qn_update else {}))))
+                     **({"qn_update": qn_update} if qn_update else {}))))
   return out
 
 
@@ -240,7 +241,7 @@ def sg_order(cls, route, sig):
 def oracle(ctx, case, stats=None):
   cls, kw = case["cls"], O.nondefault(case["cls"], case["kw"])
   cf, probes, seed = case["call_first"], case["probes"], case["seed"]
-  qnu = bool(case.get("qn_update"))
+  qnu = case.get("qn_update") or False
   ev = evaluate(cls, kw, cf, probes, seed, qnu)
   if stats is not None:
     stats["ctor"] = ev.ctor
@@ -300,8 +301,12 @@ def _labels(case, st):
   labs.append("call_first" if case["call_first"] else "config_first")
   if case.get("qn_update") and "qnoise_factor" in case["kw"]:
     labs.append("qnoise_via_update")
+    if case["qn_update"] == "var":
+      labs.append("qnoise_via_update_variable")
   if case["kw"].get("qnoise_factor") == 0.0:
     labs.append("qnoise_zero")
+  if any(isinstance(v, list) and len(v) == 1 for v in case["kw"].values()):
+    labs.append("list1_option")
   pts = case["kw"].get("post_training_scale")
   if isinstance(pts, dict) and np.ndim(pts["__nd__"]) >= 2:
     labs.append("pts_keepdims")
@@ -338,10 +343,13 @@ def run(ctx):
                      "probes": LATTICE_PROBES, "seed": LATTICE_SEED},
                     c.get("single")))
     if "qnoise_factor" in c["kw"] and len(c["kw"]) <= 2:
-      # the same function reached through update_qnoise_factor()
-      cases.append(({"cls": c["cls"], "kw": c["kw"], "call_first": i % 2 == 1,
-                     "probes": LATTICE_PROBES, "seed": LATTICE_SEED,
-                     "qn_update": True}, None))
+      # the same function reached through update_qnoise_factor(value) and
+      # update_qnoise_factor(tf.Variable)
+      for mode in (True, "var"):
+        cases.append(({"cls": c["cls"], "kw": c["kw"],
+                       "call_first": (i % 2 == 1) == (mode is True),
+                       "probes": LATTICE_PROBES, "seed": LATTICE_SEED,
+                       "qn_update": mode}, None))
   for case, single in ctx.shard(cases):
     if ctx.time_left() <= 0:
       ctx.labels["inconclusive_time"] += 1
@@ -372,7 +380,7 @@ def run(ctx):
             "probes": [draw(O.probe_strategy()), "r2"],
             "seed": draw(st_.integers(0, 2 ** 16))}
     if "qnoise_factor" in c["kw"] and draw(st_.booleans()):
-      case["qn_update"] = True
+      case["qn_update"] = draw(st_.sampled_from([True, "var"]))
     return case
 
   def orc(case):
